@@ -1151,3 +1151,120 @@ func digitArgsRule(c *Ctx) {
 	}
 	c.Check(n >= 9, "R-SIGN", "encoding/asn1", "calls of appendTwoDigits/appendFourDigits found", "-", fmt.Sprint(n))
 }
+
+// nameReaderTable: attribute type -> Name fields filled, read off the SSA of FillFromRDNSequence: a store of the
+// attribute value (or of append(n.F, value)) into n.F is attributed to the type test that dominates it: t[3] == k behind
+// len(t) == 4 && t[0] == 2 && t[1] == 5 && t[2] == 4, or t.Equal(oidX). okPrefix is false if a t[3] arm is reachable
+// without the complete prefix test.
+func nameReaderTable(w *World) (map[string]map[string]bool, bool) {
+	reader := map[string]map[string]bool{}
+	okPrefix := true
+	fn := w.Fn(fnFillRDN)
+	if fn == nil {
+		return reader, false
+	}
+	isValue := func(v ssa.Value) bool {
+		ex, ok := v.(*ssa.Extract)
+		if !ok || ex.Index != 0 {
+			return false
+		}
+		ta, ok := ex.Tuple.(*ssa.TypeAssert)
+		return ok && typeStr(ta.AssertedType) == "string"
+	}
+	for _, b := range fn.Blocks {
+		for _, in := range b.Instrs {
+			st, ok := in.(*ssa.Store)
+			if !ok {
+				continue
+			}
+			fa, ok := st.Addr.(*ssa.FieldAddr)
+			if !ok || !strings.HasPrefix(fieldName(fa), "Name.") {
+				continue
+			}
+			field := fieldLeaf(fieldName(fa))
+			val := st.Val
+			fromValue := isValue(val)
+			if cl, ok := val.(*ssa.Call); ok {
+				if bi, ok := cl.Call.Value.(*ssa.Builtin); ok && bi.Name() == "append" && len(cl.Call.Args) == 2 {
+					// append(n.F, value): the variadic slice holds value
+					if ld, ok := cl.Call.Args[0].(*ssa.UnOp); ok {
+						if fa2, ok := ld.X.(*ssa.FieldAddr); ok && fa2.Field == fa.Field {
+							for v := range backClosure(cl.Call.Args[1], func(x ssa.Value) []ssa.Value {
+								var out []ssa.Value
+								if sl, ok := x.(*ssa.Slice); ok {
+									if al, ok := sl.X.(*ssa.Alloc); ok {
+										for _, r := range *al.Referrers() {
+											if ia, ok := r.(*ssa.IndexAddr); ok {
+												for _, r2 := range *ia.Referrers() {
+													if s2, ok := r2.(*ssa.Store); ok {
+														out = append(out, s2.Val)
+													}
+												}
+											}
+										}
+									}
+								}
+								return out
+							}) {
+								if isValue(v) {
+									fromValue = true
+								}
+							}
+						}
+					}
+				}
+			}
+			if !fromValue {
+				continue
+			}
+			facts := domFacts(b)
+			prefix := map[string]bool{}
+			arc3 := ""
+			for _, f := range facts {
+				if f.Op == "true" {
+					if cl := callOf(f.X); cl != nil && strings.HasSuffix(calleeName(&cl.Call), "ObjectIdentifier).Equal") && len(cl.Call.Args) == 2 {
+						if g := globalName(cl.Call.Args[1]); g != "" {
+							if oid := oidOfGlobal(w, pkPKIX, g); oid != "" {
+								if reader[oid] == nil {
+									reader[oid] = map[string]bool{}
+								}
+								reader[oid][field] = true
+							}
+						}
+					}
+				}
+				if f.Op != "eq" || f.Y == nil {
+					continue
+				}
+				k, ok := intConst(f.Y)
+				if !ok {
+					continue
+				}
+				e := Expr(f.X)
+				switch {
+				case strings.HasPrefix(e, "len(") && k == 4:
+					prefix["len"] = true
+				case strings.HasSuffix(e, "[0]") && k == 2:
+					prefix["0"] = true
+				case strings.HasSuffix(e, "[1]") && k == 5:
+					prefix["1"] = true
+				case strings.HasSuffix(e, "[2]") && k == 4:
+					prefix["2"] = true
+				case strings.HasSuffix(e, "[3]"):
+					arc3 = fmt.Sprint(k)
+				}
+			}
+			if arc3 != "" {
+				if len(prefix) != 4 {
+					okPrefix = false
+				}
+				oid := "2.5.4." + arc3
+				if reader[oid] == nil {
+					reader[oid] = map[string]bool{}
+				}
+				reader[oid][field] = true
+			}
+		}
+	}
+	return reader, okPrefix
+}
